@@ -92,6 +92,12 @@ keeps the blanks). The model is a model of the repaired tree.
   output is not validated by DucklingScript, the property exempts it; the oracle now exempts output lines that stand inside an
   IGNORE block of the source. C18's planted failure `DELAY abc` met a generated variable named `abc` and was no failure; the
   planted failures use names and literals no generated program contains.
+* C05 (round 4): the first version of the recursion family put an `IF` between two arms (which starts a new chain — not what the
+  reference interpreter was told) and read the parameter after the inner call had returned (a parameter that shadows a visible name
+  overwrites it on exit: the quirk of §4, not the chain rule); both were errors of the generator. C14: the "deepest legal chain" of
+  the both-limits family counted one stack per call where a call with an IF costs two; the depth is now the measured one.
+  C19: editing the *global* configuration between two invocations in one process is not a CLI scenario (one run reads it once);
+  only the project file is edited.
 * C09 thorough sweep: the token-soup family drew `$ENTER 10^400` — the known finding D19 under another family name. A hang is
   now identified by the call site the implementation was busy in when the timer fired (`compiler/commands/enter.py:run_compile`),
   and D19 is keyed on that call site, so the same defect reached through any generator is the same finding while a hang
@@ -99,7 +105,9 @@ keeps the blanks). The model is a model of the repaired tree.
 
 ### 10.5 Seeded changes (`seeded/<id>/`: patch.diff, demo.py, meta.json) and the checks that catch them
 
-Round 1 (`-a`, `-b`), round 2 (`-c`, `-d`) and round 3 (`-e`, `-f`; the sub-agents were asked for changes in shared
+Round 1 (`-a`, `-b`), round 2 (`-c`, `-d`), round 3 (`-e`, `-f`) and round 4 (`-g`, `-h`; the sub-agents were told how the harness
+works — reference interpreter, formal model, tens of thousands of generated programs — and asked for the corner it does not look
+into). Round 3: the sub-agents were asked for changes in shared
 infrastructure that break the property indirectly and only for particular values, orders, nesting shapes, option combinations,
 repeated calls in one process or error paths): each written by an independent sub-agent that saw only the property text and a
 scratch worktree; each confirmed here (`harness/seedtest.py`: suite still passes with the change, the demo fails with it and
@@ -130,6 +138,30 @@ legal call chain at stack limits 150–200 must end in StackOverflowError / succ
 one call site it is about, `tab_parse.parse_document`, so a RecursionError anywhere else is a new violation); loops of every kind in
 a row, finishing in every way, consume no depth (C14-f); (10) *functions across files* in cycle detection (C13-e, C13-f);
 (11) *every error class, at top level and nested, after prints* (C18-f); out-of-range values in configuration files (C19-e).
+
+Round 4 (told to evade this very harness) was first MISSED in thirty-one of thirty-nine cases. Two of its triggers were genuine
+defects of the unchanged code and were repaired (`START` + an over-long name → OSError, fix: 84e902c; the comma operator extending
+its left operand in place → aliasing and a self-containing list → RecursionError, fix: 8d16e69 — after which the seeded C17-h, a cache
+of literal lists, became harmless and was dropped). What was built in, again as generator rules rather than single cases:
+(a) *every spelling of a command* — aliases (FUNC/FUNCTION, NOTEXIST/NOT_EXIST, …), any letter case, blanks around the commas of
+parameter and argument lists, drawn by the renderer for every structured program (C07-h, C08-h); (b) *names that look like
+keywords* (`True`, `Falsey`, `If`, `string`) and *values that change type* between two evaluations of one text (C04-g, C04-h);
+(c) *long loops* (256 … 20 000 iterations) whose body keeps state in a user variable, `$DEFAULT_DELAY` or the counter, and *fresh
+passes at the body's own level* (C06-g, C06-h); (d) *grouped commands with state between their arguments* (C07-g) and failures that
+follow a *warning raised from the same line* (C10-g); (e) *recursion* — live calls of one function deciding their own chains,
+functions that RETURN a value between arms (C05-g, C05-h); (f) imports that assign outer variables from inside blocks (C08-g),
+failures raised *inside* imported files after the importer printed (C18-h), warnings from several files at the same line numbers
+(C16-g), configuration files lying in folders of imported files (C15-g), ill-indented imported files (C03-h); (g) the START family
+with every kind of argument inside a real file, comma lists stored / nested / compared, several stacks ending through top-level
+BREAK/CONTINUE (C09-g, C09-h); (h) *how the caller spells the entry path* — relative to the working directory, from the entry
+file's own folder, through a folder and back (C12-h, C13-h), file names that look like extensions (C12-g); (i) blank lines made of
+any ASCII white space (the model's alphabet was extended by CR, VT, FF, FS–US; C03-g), scripts read from files with CRLF / CR line
+endings (C01-g), key names with zero-padded or non-ASCII digits (C02-h), print texts that look like console markup (C18-g), comma
+lists as `$` values (C11-h); (j) levels whose body never runs, and both limits (stack 150/200, 99 parentheses) near their maximum
+together, with the deepest legal chain and one more (C14-g, C14-h); folders as side effects, output paths in folders that do not
+exist, the project file edited between two runs (C19-g, C19-h); the WHILE iteration limit's trace (C10-h). One change is caught by
+the thorough tier only: C01-h (a hidden limit of 100 000 output lines; the quick tier's long script has 30 000 lines, the thorough
+tier's 120 000).
 
 | id | property | change | caught by |
 |---|---|---|---|
